@@ -571,7 +571,7 @@ func (s *Sim) resolveBlocked() bool {
 			}
 			continue
 		}
-		if b.ev.Side == 'c' && b.ev.Op == "header" && !ctxDone && !hDone && s.gotResponseMessage(rs) {
+		if b.ev.Side == 'c' && b.ev.Op == "header" && !ctxDone && !hDone && s.gotResponseMessage(rs) && !s.otherClientGoroutineIn(rs, b.ev, "recv") {
 			// headers are final once a response message has arrived: Header()
 			// has nothing to wait for
 			s.violate("C03", fmt.Sprintf("C03|%s|%s|header-call-blocks-after-first-message", rs.r.Transport, kindNames[rs.r.Kind]), rs.r.ID,
@@ -581,12 +581,21 @@ func (s *Sim) resolveBlocked() bool {
 					"rpc%d %s %s: Header() (seq %d) blocks after a response message was received while the handler waits for the client's next request: a deadlock made by the library", rs.r.ID, rs.r.Transport, kindNames[rs.r.Kind], b.ev.Seq)
 			}
 		}
-		if b.ev.Side == 'c' && b.ev.Op == "header" && !ctxDone && !hDone && !s.gotResponseMessage(rs) && s.headersSentExplicitly(rs) && s.handlerInLibrary(rs) {
+		if b.ev.Side == 'c' && b.ev.Op == "header" && !ctxDone && !hDone && !s.gotResponseMessage(rs) && s.headersSentExplicitly(rs) && s.handlerInLibrary(rs) && !s.otherClientGoroutineIn(rs, b.ev, "recv") {
 			// the handler's SendHeader has returned nil: the headers are on
 			// their way as far as the handler can tell, and it may now wait for
 			// the client, which waits for those headers
 			s.violate("C05", fmt.Sprintf("C05|%s|%s|blocked-c-header|after-SendHeader", rs.r.Transport, kindNames[rs.r.Kind]), rs.r.ID,
 				"rpc%d %s %s: the handler's SendHeader returned nil, yet the client's Header() (seq %d) still blocks and nothing else can happen (handler and client wait for each other): a deadlock made by the library", rs.r.ID, rs.r.Transport, kindNames[rs.r.Kind], b.ev.Seq)
+		}
+		if b.ev.Side == 'c' && b.ev.Op == "header" && !ctxDone && !hDone && s.otherClientGoroutineIn(rs, b.ev, "recv") && (s.gotHeaderFrame(rs) || s.gotResponseMessage(rs)) {
+			// the headers have arrived (the receiving goroutine consumed the
+			// frame), yet the sender's Header() waits for the receiver's RecvMsg
+			// to return, which waits for a response the handler only sends after
+			// the sender's next request
+			s.violate("C05", fmt.Sprintf("C05|%s|%s|blocked-c-header|behind-a-blocked-recv", rs.r.Transport, kindNames[rs.r.Kind]), rs.r.ID,
+				"rpc%d %s %s: Header() called by the client's sending goroutine (seq %d) does not return although the response headers have arrived: it waits behind the RecvMsg of the receiving goroutine; the handler waits for the sender's next request and nothing else can happen", rs.r.ID, rs.r.Transport, kindNames[rs.r.Kind], b.ev.Seq)
+			continue
 		}
 		if b.ev.Side == 'h' && (b.ev.Op == "settlr" || b.ev.Op == "sethdr") {
 			// SetTrailer and SetHeader only record metadata: nothing they could
@@ -641,6 +650,29 @@ func (s *Sim) handlerInLibrary(rs *rpcState) bool {
 	defer s.mu.Unlock()
 	for _, ev := range s.pendingOps {
 		if ev.RPC == rs.r.ID && ev.Side == 'h' && (ev.Op == "recv" || ev.Op == "send") {
+			return true
+		}
+	}
+	return false
+}
+
+func (s *Sim) otherClientGoroutineIn(rs *rpcState, me *Event, op string) bool {
+	s.mu.Lock()
+	defer s.mu.Unlock()
+	for _, ev := range s.pendingOps {
+		if ev.RPC == rs.r.ID && ev.Side == 'c' && ev.G != me.G && ev.Op == op {
+			return true
+		}
+	}
+	return false
+}
+
+// gotHeaderFrame: the handler has put headers on their way (a successful SendHeader).
+func (s *Sim) gotHeaderFrame(rs *rpcState) bool {
+	s.mu.Lock()
+	defer s.mu.Unlock()
+	for _, ev := range s.hist {
+		if ev.RPC == rs.r.ID && ev.Side == 'h' && ev.Op == "sendhdr" && ev.RSeq != 0 && ev.Err.IsNil() {
 			return true
 		}
 	}
